@@ -8,7 +8,7 @@
       deliver   VAcq [PL] VChk [PCHK] VFlag [PFLAG] VVal [PVAL] VNotify [PNOTIFY] VRel [PL]
       deref     MAcq [PL] MPred [PRED: lambda: self._is_delivered] (MWait) (MReacq)
                 MGet [PGET] | MTmo [PTMO]  MRel [PL]
-      realized? LAcq [PL] LRead [PREAL] LRel [PL]
+      realized? GAcq [PL] GRead [PREAL] GRel [PL]
 
     Ghost: [phist], the linearization events (Spec.pev), newest first. *)
 From Coq Require Import List Bool Arith Lia.
@@ -19,14 +19,14 @@ Inductive ppc :=
 | QIdle
 | VAcq | VChk | VFlag | VVal | VNotify | VRel
 | MAcq | MPred | MWait | MReacq | MGet | MTmo | MRel
-| LAcq | LRead | LRel.
+| GAcq | GRead | GRel.
 
 Inductive plab := LPL | LPChk | LPFlag | LPVal | LPNotify | LPred | LPGet | LPTmo | LPReal.
 
 Definition plab_of (p : ppc) : option plab :=
   match p with
   | QIdle => None
-  | VAcq | VRel | MAcq | MRel | LAcq | LRel => Some LPL
+  | VAcq | VRel | MAcq | MRel | GAcq | GRel => Some LPL
   | VChk => Some LPChk
   | VFlag => Some LPFlag
   | VVal => Some LPVal
@@ -34,7 +34,7 @@ Definition plab_of (p : ppc) : option plab :=
   | MPred | MWait | MReacq => Some LPred
   | MGet => Some LPGet
   | MTmo => Some LPTmo
-  | LRead => Some LPReal
+  | GRead => Some LPReal
   end.
 
 Definition plab_eqb (a b : plab) : bool :=
@@ -76,7 +76,7 @@ Section Promise.
   }.
 
   Definition pentry (o : pop) : ppc :=
-    match o with PDeliver _ => VAcq | PDeref _ => MAcq | PReal => LAcq end.
+    match o with PDeliver _ => VAcq | PDeref _ => MAcq | PReal => GAcq end.
   Definition pcur (th : pthread) : ppc :=
     match p_pc th with
     | QIdle => match p_ops th with o :: _ => pentry o | [] => QIdle end
@@ -103,11 +103,11 @@ Section Promise.
     | [] => None
     | o :: _ =>
       match pcur th, a with
-      | (VAcq | MAcq | LAcq) as p, ARun =>
+      | (VAcq | MAcq | GAcq) as p, ARun =>
           match plock s with
           | Some _ => None
           | None => Some (pset s (Some t) t
-                            (pwith_pc th (match p with VAcq => VChk | MAcq => MPred | _ => LRead end)))
+                            (pwith_pc th (match p with VAcq => VChk | MAcq => MPred | _ => GRead end)))
           end
       | VChk, ARun =>
           if delivered s
@@ -172,10 +172,10 @@ Section Promise.
           | _ => None
           end
       | MRel, ARun => Some (pset s None t (pfinish th o (PRet (p_got th))))
-      | LRead, ARun =>
+      | GRead, ARun =>
           Some (pset_ev s (plock s) (EReal (delivered s)) t
-                        (mkPT (p_ops th) LRel (delivered s) (p_expired th) (p_got th) (p_done th)))
-      | LRel, ARun => Some (pset s None t (pfinish th o (PBool (p_notified th))))
+                        (mkPT (p_ops th) GRel (delivered s) (p_expired th) (p_got th) (p_done th)))
+      | GRel, ARun => Some (pset s None t (pfinish th o (PBool (p_notified th))))
       | _, _ => None
       end
     end.
@@ -192,7 +192,7 @@ Section Promise.
   Inductive pkind := KRun | KBlock | KWait | KWake | KTimeout | KWakeBlock | KTimeoutBlock.
 
   Definition p_is_acq (p : ppc) : bool :=
-    match p with VAcq | MAcq | LAcq | MReacq => true | _ => false end.
+    match p with VAcq | MAcq | GAcq | MReacq => true | _ => false end.
   Definition lock_busy (s : pstate) (t : nat) : bool :=
     match plock s with Some u => negb (Nat.eqb u t) | None => false end.
 
